@@ -169,6 +169,65 @@ type World struct {
 	// when set, a Put/Remove is allowed to lose against a concurrent op (A engine handles oracles itself)
 	ledger *Ledger
 	relocs int
+	// GCErrors collects errors returned by GC cycles (not violations).
+	GCErrors []string
+	// Flags are trace predicates evaluated by the harness itself; they become
+	// the trigger part of a violation's fingerprint (known-findings matching).
+	Flags map[string]string
+}
+
+type rawLoc struct {
+	blk     types.Block
+	found   bool
+	content string
+}
+
+// recordContent reads the primary record at blk ("" if unreadable).
+func (w *World) recordContent(blk types.Block) string {
+	key, val, err := w.S.Primary().Get(blk)
+	if err != nil || key == nil {
+		return ""
+	}
+	return fmt.Sprintf("%x=%q", key, val)
+}
+
+// rawLocations asks the index (prefix match only, no key comparison) where
+// every universe key and probe resolves to.
+func (w *World) rawLocations() map[string]rawLoc {
+	out := make(map[string]rawLoc)
+	for _, ks := range [][]Key{w.Keys, w.Probes} {
+		for _, k := range ks {
+			blk, found, err := w.idx().Get(k.Digest)
+			if err != nil {
+				found = false
+			}
+			rl := rawLoc{blk: blk, found: found}
+			if found {
+				rl.content = w.recordContent(blk)
+			}
+			out[k.Name] = rl
+		}
+	}
+	return out
+}
+
+func (w *World) allNames() []string {
+	var out []string
+	for _, ks := range [][]Key{w.Keys, w.Probes} {
+		for _, k := range ks {
+			out = append(out, k.Name)
+		}
+	}
+	return out
+}
+
+func (w *World) gcIndex(ctx context.Context, scanFree bool) (n int64, e int, err error) {
+	defer func() {
+		if r := recover(); r != nil {
+			err = fmt.Errorf("panic: %v", r)
+		}
+	}()
+	return w.idx().VerifGC(ctx, scanFree)
 }
 
 // NewWorld creates a fresh MemFS, installs it and opens a store on it.
@@ -177,12 +236,14 @@ func NewWorld(c Config) (*World, error) {
 	w.FS.MkdirRaw("/s")
 	w.Keys, w.Probes = universe(c)
 	vos.SetBackend(w.FS)
-	vhook.SetMapOrderDesc(c.MapDesc)
+	setMapOrder(c)
 	if err := w.Open(); err != nil {
 		return nil, err
 	}
 	return w, nil
 }
+
+func setMapOrder(c Config) { vhook.SetMapOrderDesc(c.MapDesc) }
 
 func (w *World) options() []store.Option {
 	opts := []store.Option{
@@ -542,9 +603,14 @@ func (w *World) Step(op Op) *Violation {
 		return w.Iterate()
 	case OpIdxGC:
 		ctx := &countingCtx{Context: context.Background(), cutAt: op.A}
-		_, _, err := w.idx().VerifGC(ctx, op.B)
+		_, _, err := w.gcIndex(ctx, op.B)
 		if err != nil && !(op.A != 0 && errors.Is(err, context.DeadlineExceeded)) {
-			return viol("call-error", "index GC: %v", err)
+			if strings.HasPrefix(err.Error(), "panic:") {
+				return viol("panic", "index GC: %v", err)
+			}
+			// A cycle that gives up with an error is not, by itself, a change
+			// of what the store contains; it is counted, not alarmed on.
+			w.GCErrors = append(w.GCErrors, "index GC: "+err.Error())
 		}
 	case OpPriGC:
 		mp := w.mh()
@@ -552,20 +618,65 @@ func (w *World) Step(op Op) *Violation {
 			return nil
 		}
 		ctx := &countingCtx{Context: context.Background(), cutAt: op.V}
-		var relocBefore map[string]types.Block
-		if w.ledger != nil {
-			relocBefore = w.locateAll()
-		}
+		before := w.rawLocations()
+		poolBefore := len(w.S.VerifFreelist().VerifPool())
 		_, err := w.gcPrimary(mp, ctx, int64(op.A))
 		if err != nil && !(op.V != 0 && errors.Is(err, context.DeadlineExceeded)) {
-			return viol("call-error", "primary GC: %v", err)
+			if strings.HasPrefix(err.Error(), "panic:") {
+				return viol("panic", "primary GC: %v", err)
+			}
+			w.GCErrors = append(w.GCErrors, "primary GC: "+err.Error())
 		}
-		if w.ledger != nil {
-			after := w.locateAll()
-			for d, b := range relocBefore {
-				if a, ok := after[d]; ok && a != b {
-					w.relocs++
-					w.ledger.superseded(b, fmt.Sprintf("relocation of key %x by op %d", d, len(w.Trace)-1))
+		// Which locations did the cycle put on the freelist (= relocated
+		// away from, or discarded)? Whose index entries did it change?
+		pool := w.S.VerifFreelist().VerifPool()
+		moved := map[types.Position]bool{}
+		if len(pool) >= poolBefore {
+			for _, b := range pool[poolBefore:] {
+				moved[b.Offset] = true
+			}
+		}
+		after := w.rawLocations()
+		referenced := map[types.Position]bool{}
+		for _, b := range before {
+			if b.found {
+				referenced[b.blk.Offset] = true
+			}
+		}
+		counted := map[types.Position]bool{}
+		for _, name := range w.allNames() {
+			b, a := before[name], after[name]
+			if a.blk == b.blk && a.found == b.found {
+				continue
+			}
+			if b.found && moved[b.blk.Offset] && !counted[b.blk.Offset] {
+				counted[b.blk.Offset] = true
+				w.relocs++
+				if w.ledger != nil {
+					w.ledger.superseded(b.blk, fmt.Sprintf("relocation of the record %s resolved to, by op %d", name, len(w.Trace)-1))
+				}
+			}
+		}
+		// R1: the cycle relocated a record that no index entry referenced
+		// (an orphan left by a crash, or a stale copy) and re-pointed some
+		// entry at the copy.
+		if len(pool) >= poolBefore {
+			for _, m := range pool[poolBefore:] {
+				if referenced[m.Offset] {
+					continue
+				}
+				orphan := w.recordContent(m)
+				if orphan == "" {
+					continue
+				}
+				for _, name := range w.allNames() {
+					b, a := before[name], after[name]
+					if a.found && a.content == orphan && a.content != b.content {
+						if w.Flags == nil {
+							w.Flags = map[string]string{}
+						}
+						w.Flags["R1"] = fmt.Sprintf("primary GC relocated the record at %d, which no index entry referenced, and re-pointed the entry reached through %s at the copy (%s)", m.Offset, name, orphan)
+					}
 				}
 			}
 		}
@@ -648,4 +759,21 @@ func sortedModel(m map[string][]byte) string {
 		fmt.Fprintf(&sb, "%x=%q ", k, m[k])
 	}
 	return sb.String()
+}
+
+// applyFlags turns the trace predicates the harness evaluated on this world
+// into the violation's trigger (used for known-finding matching).
+func applyFlags(w *World, v *Violation) {
+	if w == nil || v == nil || len(w.Flags) == 0 {
+		return
+	}
+	names := make([]string, 0, len(w.Flags))
+	for n := range w.Flags {
+		names = append(names, n)
+	}
+	sort.Strings(names)
+	v.Trigger = strings.Join(names, "+")
+	for _, n := range names {
+		v.Detail += " [" + n + ": " + w.Flags[n] + "]"
+	}
 }
